@@ -1272,9 +1272,13 @@ class TorProcessProtocol(protocol.ProcessProtocol):
         # reset and try again at the next output (see this class'
         # tor_connection_failed)
         txtorlog.msg(data)
+        if not self.attempted_connect and self.connection_creator:
+            # the line we're looking for may arrive in several pieces
+            self.collected_stdout.write(data.decode('ascii', 'replace'))
         if not self.attempted_connect and self.connection_creator \
-                and b'Opening Control listener' in data:
+                and 'Opening Control listener' in self.collected_stdout.getvalue():
             self.attempted_connect = True
+            self.collected_stdout = StringIO()
             # hmmm, we don't "do" anything with this Deferred?
             # (should it be connected to the when_connected
             # Deferreds?)
